@@ -1,7 +1,7 @@
 import TabulaModel.Model.Package
 /-!
 Model of how tabula BINDS the attributes of the declaring elements of an OOXML package
-(C18): the struct tags of `xlsx/types.go` (`sheetRefXML`, `relationshipXML`) and
+(C18): the struct tags of `xlsx/types.go` (`sheetRefXML` with `relID()`, `relationshipXML`) and
 `pptx/types.go` (`slideIdXML` with `relID()`, `relationshipXML`) — tabula's own code —
 on top of the attribute list that `encoding/xml` hands to the struct binding: for every
 start element the attributes in document order, each as (namespace URI, local name,
@@ -53,8 +53,22 @@ def sldIdRel (attrs : List Attr) : Str :=
   let t := attrField nsRelT lId attrs
   if t ≠ [] then t else attrField nsRelS lId attrs
 
-/-- `xlsx.sheetRefXML`: `(Name, RID)`; `RID string xml:"id,attr"` carries no namespace -/
+/-- `xlsx.sheetRefXML.relID()` (since 10098f7, the same shape as `pptx.slideIdXML`): `RID`
+is bound to the Transitional relationships namespace, `RIDStrict` to the Strict one;
+`relID` prefers a non-empty `RID`. (`SheetID string xml:"sheetId,attr"` is bound too;
+nothing reads it.) -/
+def sheetRel (attrs : List Attr) : Str :=
+  let t := attrField nsRelT lId attrs
+  if t ≠ [] then t else attrField nsRelS lId attrs
+
+/-- `xlsx.sheetRefXML`: `(Name, relID())`; `Name string xml:"name,attr"` carries no
+namespace, the relationship id is `sheetRel` -/
 def sheetRef (attrs : List Attr) : Str × Str :=
+  (attrField [] lName attrs, sheetRel attrs)
+
+/-- `xlsx.sheetRefXML` BEFORE 10098f7: `RID string xml:"id,attr"` carried no namespace, so
+the field took every attribute of local name `id` (kept for the pinned counterexample) -/
+def sheetRefOld (attrs : List Attr) : Str × Str :=
   (attrField [] lName attrs, attrField [] lId attrs)
 
 /-- `relationshipXML` (both packages): `(Id, Type, Target)` -/
